@@ -195,3 +195,62 @@ def check_position_map_keys(ctx, fns, rule='A21i', required=()):
         if key not in seen_required:
             raise AnalysisError(f'{key}: position map `{{k: i for i, k in enumerate(..)}}` not found')
     return n
+
+
+# ---------------------------------------------------------------------- A21g: row ids of the combination table
+def check_global_row_ids(ctx, fn_key, rule='A21g'):
+    """`ids = np.arange(T.shape[0])` remembers for every row of the enumeration table T which selection-choice
+    combination it came from; the ids are later compared with *global* combination indices (existence tables,
+    `i_comb` loops).  They are global only if they are taken while T still has one row per combination: no row
+    filter `T = T[mask, ...]` may reach the arange, and every later row filter / repetition of T is applied to the
+    ids as well."""
+    from ..cfg import build_rd
+    fn = ctx.fn(fn_key)
+    cfg = build_cfg(fn)
+    rd = build_rd(fn)
+    n = 0
+    found = False
+    for nd in cfg.nodes:
+        a = nd.ast
+        if not (nd.kind == 'stmt' and isinstance(a, ast.Assign) and isinstance(a.targets[0], ast.Name) and
+                isinstance(a.value, ast.Call) and norm(a.value.func).split('.')[-1] == 'arange' and a.value.args):
+            continue
+        arg = a.value.args[0]
+        if not (isinstance(arg, ast.Subscript) and isinstance(arg.value, ast.Attribute) and arg.value.attr == 'shape'
+                and isinstance(arg.value.value, ast.Name) and norm(arg.slice) == '0'):
+            continue
+        ids, tab = a.targets[0].id, arg.value.value.id
+        found = True
+        filtered = [d for d in rd.defs_of(tab, nd) if d.kind == 'stmt' and isinstance(d.ast, ast.Assign) and
+                    isinstance(d.ast.value, ast.Subscript) and isinstance(d.ast.value.value, ast.Name) and
+                    d.ast.value.value.id == tab]
+        n += 1
+        ctx.touch(fn)
+        ctx.ob(rule, fkey(fn, rule, f'{ids}-taken-before-row-filter:{tab}'), not filtered,
+               f'{fn.module.relpath}:{nd.lineno}',
+               f'`{ids}` numbers the rows of `{tab}` while it still has one row per combination (the ids are compared '
+               f'with global combination indices later on)',
+               'no row filter of the table reaches the arange' if not filtered else
+               f'`{short(filtered[0].ast, 60)}` (L{filtered[0].lineno}) reaches it: the ids are positions in the '
+               f'filtered table, not combination indices')
+        # later filters of the table are mirrored on the ids
+        for d in cfg.nodes:
+            if d.kind == 'stmt' and isinstance(d.ast, ast.Assign) and isinstance(d.ast.targets[0], ast.Name) and \
+                    d.ast.targets[0].id == tab and isinstance(d.ast.value, ast.Subscript) and \
+                    isinstance(d.ast.value.value, ast.Name) and d.ast.value.value.id == tab and d.lineno > nd.lineno:
+                sl = d.ast.value.slice
+                row = sl.elts[0] if isinstance(sl, ast.Tuple) else sl
+                if isinstance(row, ast.Slice) and row.lower is None and row.upper is None and row.step is None:
+                    continue            # a column selection keeps every row
+                mask = norm(row)
+                mirrored = any(m.kind == 'stmt' and isinstance(m.ast, ast.Assign) and
+                               isinstance(m.ast.targets[0], ast.Name) and m.ast.targets[0].id == ids and
+                               isinstance(m.ast.value, ast.Subscript) and norm(m.ast.value.value) == ids and
+                               norm(m.ast.value.slice) == mask for m in cfg.nodes)
+                n += 1
+                ctx.ob(rule, fkey(fn, rule, f'{ids}-filtered-with:{mask}'), mirrored, f'{fn.module.relpath}:{d.lineno}',
+                       f'the row filter `{mask}` of `{tab}` is applied to `{ids}` as well', 'mirrored' if mirrored
+                       else f'`{ids}` is not filtered with `{mask}`: rows and ids fall out of step')
+    if not found:
+        raise AnalysisError(f'{fn_key}: row ids (np.arange(<table>.shape[0])) not found')
+    return n
